@@ -897,6 +897,13 @@ next:
 			b = (*bmap)(add(h.oldbuckets, oldbucket*uintptr(t.BucketSize)))
 			if !evacuated(b) {
 				checkBucket = bucket
+				if h.sameSizeGrow() {
+					// Every entry of the old bucket belongs to this bucket. Do not
+					// filter later: the grow can finish (and sameSizeGrow be cleared)
+					// while we still walk this old bucket, and the NaN rule below
+					// would then skip entries whose tophash is evacuatedX.
+					checkBucket = noCheck
+				}
 			} else {
 				b = (*bmap)(add(it.buckets, bucket*uintptr(t.BucketSize)))
 				checkBucket = noCheck
